@@ -177,7 +177,7 @@ static void apply(void *vs, int op, int check)
 		if (n >= 0 && n < MODEL_CAP)
 			for (int k = 0; k < n; k++)
 				srcbuf[k] = pat(s->len + k);
-		errno = 0;
+		errno = mc_errno_pre;
 		int rc;
 		MC_COUNT("calls", 1);
 		if (kind == K_APPEND)
@@ -224,7 +224,7 @@ static void apply(void *vs, int op, int check)
 		int eff = off == -1 ? s->len : off;
 		int valid = off >= -1 && n >= 0 && n <= INT_MAX - eff;
 		int feasible = valid && (long)eff + n + 9 < MODEL_CAP;
-		errno = 0;
+		errno = mc_errno_pre;
 		MC_COUNT("calls", 1);
 		int rc = printbuf_memset(pb, off, 'M', n);
 		snprintf(what, sizeof what, "memset(%d,'M',%d)", off, n);
